@@ -71,6 +71,37 @@ impl Family for AtomicFam {
             },
         }
     }
+    fn objects_of(op: &AOp) -> Vec<u32> {
+        let a = match op {
+            AOp::Load(a) | AOp::Store(a, _) | AOp::Swap(a, _) | AOp::Cas(a, _, _) | AOp::CasWeak(a, _, _) | AOp::FetchAdd(a, _) | AOp::FetchMax(a, _) | AOp::FetchUpdateEven(a) => *a,
+        };
+        vec![0x300 + a as u32]
+    }
+    /// atomic write -> every later atomic read or read-modify-write of the same variable
+    fn hb_must(p: &Program<AtomicFam>, log: &[Entry<ARes>]) -> Vec<(usize, usize)> {
+        let mut out = Vec::new();
+        let mut writes: std::collections::HashMap<usize, Vec<usize>> = Default::default();
+        for (i, e) in log.iter().enumerate() {
+            let EKind::Ret(GRes::R(r)) = &e.kind else { continue };
+            let GOp::Op(op) = &p.threads[e.thread][e.op] else { continue };
+            let var = Self::objects_of(op)[0] as usize;
+            let reads = !matches!(op, AOp::Store(..));
+            let wrote = match op {
+                AOp::Load(_) => false,
+                AOp::Cas(..) | AOp::CasWeak(..) | AOp::FetchUpdateEven(_) => matches!(r, ARes::Ok(_)),
+                _ => true,
+            };
+            if reads {
+                for w in writes.get(&var).cloned().unwrap_or_default() {
+                    out.push((w, i));
+                }
+            }
+            if wrote {
+                writes.entry(var).or_default().push(i);
+            }
+        }
+        out
+    }
     fn m_init(cfg: &usize, _n: usize) -> Vec<usize> {
         vec![0; *cfg]
     }
